@@ -350,6 +350,46 @@ def foreign_events(ctx, W):
             except Exception as ex:
                 e.update({'raised': True, 'after': '', 'exc': repr(ex)[:120]})
             ev.append(e)
+    # ---- directed classes, independent of the rotation above (which shifts whenever a class is added) -------------------------------------
+    def directed(label, inner, content, alg, **kw):
+        pw = PW['pw'].encode('utf-8')
+        blob, log = enc.encrypt_message(inner, alg, passphrases=[pw], **kw)
+        e = {'k': 'foreign', 'label': 'cipher=%d to=pw %s' % (alg, label), 'blob': octets(blob), 'log': log, 'recipients': [{'keyid': [], 'body': [], 'fpr': []}],
+             'inner': octets(inner), 'expected': _sha(content)}
+        try:
+            dec = pgpy.PGPMessage.from_blob(blob).decrypt(PW['pw'])
+            c = dec.message
+            if isinstance(c, str):
+                c = c.encode('utf-8') if dec._message.format != 't' else c.encode('latin-1')
+            e.update({'raised': False, 'after': _sha(bytes(c))})
+        except Exception as ex:
+            e.update({'raised': True, 'after': '', 'exc': repr(ex)[:120]})
+        ev.append(e)
+    # (a) partial body lengths of the container with every class of FINAL length: 0, one octet (1, 191), two octets (192, 193, 8383), five octets (8384, 20000)
+    for fl, size in ((0, 3000), (1, 3000), (191, 3000), (192, 3000), (193, 3000), (1000, 3000), (8383, 12000), (8384, 12000), (20000, 30000)):
+        content = bytes((i * 11 + fl) % 256 for i in range(size))
+        directed('inner=literal, container in partial lengths with a final length of %d' % fl, build.pkt(11, b'b\x00' + bytes(4) + content), content,
+                 9 if fl % 2 == 0 else 7, final_len=fl, s2k=(3, 8, 0))
+    # (a') a literal in partial body lengths that is FOLLOWED by another packet inside the container (a one-pass signed message: the
+    #      signature comes after the literal) - a misread final length shows as wrong content / a lost signature, it cannot hide at the end
+    sk_ = build.ForeignKey('ed25519')
+    for fl, size in ((100, 2000), (192, 2000), (1000, 5000), (8384, 20000)):
+        content = bytes((i * 13 + fl) % 256 for i in range(size))
+        lit_body = b'b\x00' + bytes(4) + content
+        rest = len(lit_body) - fl
+        lit = build.pkt(11, lit_body, chunks=[k for k in range(30, -1, -1) if rest & (1 << k)])
+        sigp, _ = build.sig_packet(sk_, 0x00, 'sha256', [], [], build.subject_octets(0x00, doc=content), created=1262305000)
+        ops = build.pkt(4, bytes([3, 0, 8, 22]) + sk_.keyid + b'\x01')
+        directed('inner=one-pass signed literal in partial lengths with a final length of %d, signature after it' % fl, ops + lit + sigp, content, 9, s2k=(3, 8, 0))
+    # (b) the SKESK cipher (which wraps the session key) differs from the data cipher, in both directions of every key-size pair
+    small = b'wrapped under another cipher'
+    for alg, walg in ((9, 7), (7, 9), (9, 8), (8, 9), (7, 8), (8, 7), (3, 9), (9, 3), (2, 7), (7, 2), (4, 9), (13, 11), (11, 13), (12, 7)):
+        directed('inner=literal, session key of cipher %d wrapped under cipher %d' % (alg, walg), build.pkt(11, b'b\x00' + bytes(4) + small), small, alg, skesk_alg=walg, s2k=(3, 8, 0))
+    # (c) every S2K specifier x with / without an encrypted session key
+    for spec, hid in ((0, 8), (1, 8), (3, 8), (0, 2), (1, 10), (3, 11)):
+        for plain in (False, True):
+            directed('inner=literal, s2k specifier %d hash %d%s' % (spec, hid, ' (no encrypted session key)' if plain else ''), build.pkt(11, b'b\x00' + bytes(4) + small), small,
+                     9 if spec != 1 else 7, s2k=(spec, hid, 16), esk_plain_session=plain)
     return ev
 
 
